@@ -88,6 +88,18 @@ func recC07(c *ctx) {
 	for _, ls := range [][2]int{{0, 32}, {31, 32}, {33, 32}, {32, 0}, {32, 31}, {32, 33}, {64, 64}} {
 		x(r.Bytes(ls[0]), r.Bytes(ls[1]))
 	}
+	// GeneratePrivateKey(reader): SHA-512/256 of the 32 bytes read; GenerateKey adds the public key
+	for i := 0; i < 3; i++ {
+		ent := r.Bytes(32)
+		pk, sk, err := x25519.GenerateKey(bytes.NewReader(ent))
+		sk2, err2 := x25519.GeneratePrivateKey(bytes.NewReader(ent))
+		d := sha512.Sum512_256(ent)
+		ok := err == nil && err2 == nil && bytes.Equal(sk[:], d[:]) && bytes.Equal(sk2[:], sk[:]) && bytes.Equal((*sk.Public())[:], pk[:])
+		c.w.Emit(vt.Ev{"op": "check", "cfg": c.cfg, "what": "GenerateKey = SHA-512/256(entropy), Public()", "ok": ok})
+		if err == nil {
+			c.w.Emit(vt.Ev{"op": "basemult", "cfg": c.cfg, "scalar": vt.B(sk[:]), "out": vt.B(pk[:]), "via": "GenerateKey"})
+		}
+	}
 	n := c.budget(24, 900)
 	for i := 0; i < n; i++ {
 		switch i % 8 {
